@@ -23,6 +23,7 @@ def plainDen : LV → Option (List Val)
   | .cons h t => (plainDen t).map (h :: ·)
   | .seq xs => some xs
   | .adaptor _ _ => none
+  | .nilIface => none
 
 theorem plain_lsim : LSim 1 (fun _ l xs => plainDen l = some xs) where
   isEmpty := by
@@ -36,6 +37,7 @@ theorem plain_lsim : LSim 1 (fun _ l xs => plainDen l = some xs) where
       exact ⟨hp, lg, by rw [LL.isEmpty.eq_def]; rfl, by simp [plainDen, hy]⟩
     | seq ys => simp [plainDen] at h; subst h; exact ⟨hp, lg, by rw [LL.isEmpty.eq_def]; rfl, rfl⟩
     | adaptor a b => simp [plainDen] at h
+    | nilIface => simp [plainDen] at h
   head := by
     intro fuel hp l x xs lg hk h
     obtain ⟨f, rfl⟩ := Nat.exists_eq_succ_of_ne_zero (by omega : fuel ≠ 0)
@@ -47,6 +49,7 @@ theorem plain_lsim : LSim 1 (fun _ l xs => plainDen l = some xs) where
       exact ⟨hp, lg, by rw [LL.head.eq_def]; rfl, by simp [plainDen, hy]⟩
     | seq ys => simp [plainDen] at h; subst h; exact ⟨hp, lg, by rw [LL.head.eq_def]; rfl, rfl⟩
     | adaptor a b => simp [plainDen] at h
+    | nilIface => simp [plainDen] at h
   tail := by
     intro fuel hp l x xs lg hk h
     obtain ⟨f, rfl⟩ := Nat.exists_eq_succ_of_ne_zero (by omega : fuel ≠ 0)
@@ -58,6 +61,7 @@ theorem plain_lsim : LSim 1 (fun _ l xs => plainDen l = some xs) where
       exact ⟨t, hp, lg, by rw [LL.tail.eq_def]; rfl, hy⟩
     | seq ys => simp [plainDen] at h; subst h; exact ⟨.seq xs, hp, lg, by rw [LL.tail.eq_def]; rfl, rfl⟩
     | adaptor a b => simp [plainDen] at h
+    | nilIface => simp [plainDen] at h
 
 variable {k : Nat} {R : Heap → LV → List Val → Prop}
 
